@@ -139,6 +139,24 @@ func c07(c *Ctx) {
 				}
 				return nil
 			})
+			// ... and for a controller that is configured - with whatever protocol string its entry carries, whatever door names,
+			// built either way: how a controller is configured is no reason to reject a call
+			if round%3 == 0 {
+				sc := r.Serial()
+				proto := []string{"any", "xyz", "", "UDP", "tcp", "udp", "TCP", "Any"}[r.Pick(8)]
+				uc, dc := mkMemClient(ClientCfg{Bind: "0.0.0.0:0", Broadcast: "192.168.1.255:60000", Devices: []DevCfg{
+					{ID: sc, Name: "configured", Addr: []string{"192.168.1.100:60000", "10.0.0.7:54321", "0.0.0.0:60000", "192.168.1.100:0"}[r.Pick(4)], Proto: proto, NewDevice: r.Chance(0.5), Doors: [][]string{nil, {}, {"a", "", "c", ""}, {"a", "b", "c", "d"}}[r.Pick(4)]}}})
+				uSaved, dSaved := u, d
+				u, d = uc, dc
+				judge(op, sc, "valid-configured", true, fmt.Sprintf("valid call to a configured controller (protocol %q) %v", proto, a), op.Request(sc, a), func() error {
+					out := adapter.Call(uc, op.Name, sc, a, aux)
+					if out.Err != "" {
+						return fmt.Errorf("%s", out.Err)
+					}
+					return nil
+				})
+				u, d = uSaved, dSaved
+			}
 		}
 	}
 
